@@ -66,7 +66,8 @@ func ConvertProtoHeaderToMetadata(
 				vals[i] = string(data)
 			}
 		}
-		asMetadata[key] = vals
+		// the same name may appear more than once (or differ only in case)
+		asMetadata[key] = append(asMetadata[key], vals...)
 	}
 	return asMetadata
 }
